@@ -1227,7 +1227,11 @@ func checkC04(ctx *Ctx) *Result {
 	r.share(checkC13(ctx), map[string]string{
 		"R13.4": "every accepting path of ParsePattern has passed each documented guard (scheme, host alphabet, IDNA profile, IP canonical form, https never with an IP, port range, no default port)",
 		"R13.1": "documented limits are the constants in use; the lexers' loops are bounded by them (a scheme, host or port beyond the documented maximum is not accepted)",
+		"R13.7": "the host lexer's steps are the documented grammar's (label bytes, separators, the IPv4 assumption, lengths): a host outside it is not accepted",
+		"R13.8": "the IDNA profile used for domain hosts is idna.New(BidiRule, ValidateLabels(true), StrictDomainName(true), VerifyDNSLength(true))",
 	}, nil)
+	// the error the caller sees is the builder's: Reconfigure consults it on every path
+	r.share(checkC08(ctx), map[string]string{"R7.0": "every function touching the Middleware's state is loop-free and fully summarised; state fields identified by role (mutex, configuration pointer, debug flag)", "R8.1": "Reconfigure: every path calls the builder (or is Reconfigure(nil)); the rejecting path returns the builder's error and nothing is stored unless that error is nil"}, nil)
 	for _, f := range sortedKeys(val.Lists) {
 		t := val.Lists[f]
 		for i, ip := range t.Iter {
